@@ -1,7 +1,8 @@
 // C14 correspondence harness: interrupt protocol.
 //   c14 proto  <seed> <n> <outbase>          random call scripts against the REAL geos::util::Interrupt functions
 //   c14 ops    <seed> <n> <outbase> [tier]   n (operation, input) pairs; for each: clean run -> N, then interrupt at poll k
-//   c14 replay <file>                        case lines (S ... / O ...) -> implementation observations on stdout
+//   c14 unwind <seed> <n> <outbase>          exception transparency of the REAL noding::ValidatingNoder::computeNodes (W lines)
+//   c14 replay <file>                        case lines (S ... / O ... / W ...) -> implementation observations on stdout
 // Meant to be built with the asan flavour: per case the live-heap size is compared before/after and, when it
 // grew, LeakSanitizer is asked (recoverable check) whether new unreachable blocks exist -> token leak=0/1.
 //
@@ -17,6 +18,12 @@
 #include <geos/operation/relate/RelateOp.h>
 #include <geos/geom/IntersectionMatrix.h>
 #include <geos/geom/Geometry.h>
+#include <geos/geom/CoordinateSequence.h>
+#include <geos/noding/Noder.h>
+#include <geos/noding/ValidatingNoder.h>
+#include <geos/noding/NodedSegmentString.h>
+#include <geos/util/TopologyException.h>
+#include <geos/util/IllegalArgumentException.h>
 #include <cstdarg>
 #include <fstream>
 #include <iostream>
@@ -45,6 +52,12 @@ static bool g_trace = false;  // record poll sites (clean runs only)
 static std::map<std::string, long> g_sites;
 static std::vector<const std::string*> g_siteSeq;   // poll index-1 -> site name (function only) of the traced run
 static std::map<std::string, std::string> g_fnNames; // interned function names
+// call-stack CONTEXT of each poll of the traced run: the chain of library functions between the poll and the API entry.  Two polls
+// at the same source line reached through different callers (the noder of an overlay vs. the noder inside the noding validation
+// that follows it) unwind through different handlers, so they are different places to interrupt.
+static std::vector<int> g_ctxSeq;                    // poll index-1 -> context id
+static std::map<std::string, int> g_ctxIds;          // context key -> id (per traced run)
+static std::map<void*, std::string> g_addrSym;       // return address -> symbol name ("" = outside the library)
 
 static void* g_processLo = nullptr; static void* g_processHi = nullptr;   // address range of Interrupt::process
 static std::map<void*, int> g_frameRobust;          // return address -> is inside OverlayNGRobust::Overlay (which catches std::runtime_error)
@@ -62,7 +75,18 @@ __attribute__((noinline)) static void recordSite() {
     int at = -1;
     for (int i = 0; i + 1 < n; i++) if (bt[i] >= g_processLo && bt[i] < g_processHi) { at = i + 1; break; }
     static const std::string unk = "unknown";
-    if (at < 0) { g_sites["unknown"]++; g_siteSeq.push_back(&unk); return; }
+    if (at < 0) { g_sites["unknown"]++; g_siteSeq.push_back(&unk); g_ctxSeq.push_back(-1); return; }
+    { std::string key;
+      for (int i = at; i < n; i++) {
+          auto it = g_addrSym.find(bt[i]);
+          if (it == g_addrSym.end()) { Dl_info fi; std::string nm;
+              if (dladdr(bt[i], &fi) && fi.dli_sname && fi.dli_fname && std::strstr(fi.dli_fname, "libgeos")) nm = fi.dli_sname;
+              it = g_addrSym.emplace(bt[i], nm).first; }
+          if (it->second.empty()) continue;
+          if (key.size() >= it->second.size() + 1 && key.compare(key.size() - it->second.size() - 1, it->second.size(), it->second) == 0) continue;   // recursion: collapse repeats
+          key += it->second; key += ';'; }
+      auto ci = g_ctxIds.find(key); if (ci == g_ctxIds.end()) ci = g_ctxIds.emplace(key, (int) g_ctxIds.size()).first;
+      g_ctxSeq.push_back(ci->second); }
     bool robust = false;
     for (int i = at + 1; i < n && !robust; i++) {
         auto it = g_frameRobust.find(bt[i]);
@@ -228,8 +252,23 @@ static const int N_ROBUST_PAIRS = (int) (sizeof ROBUST_PAIRS / sizeof ROBUST_PAI
 // inputs are a pure function of (family, seed, size)
 static Input makeInput(char fam, uint64_t seed, int size) {
     Geo g(seed * 7919 + (uint64_t) fam * 104729 + (uint64_t) size); Input in; Rng& r = g.r;
+    if (size == 4 && !(fam == 'O' || fam == 'R' || fam == 'U' || fam == 'N')) size = 2;
     int m = size == 0 ? 1 : size == 1 ? r.range(1, 2) : size == 2 ? r.range(2, 4) : r.range(5, 8);
     int nv = size == 0 ? r.range(3, 6) : size == 1 ? r.range(5, 30) : size == 2 ? r.range(10, 80) : r.range(50, 300);
+    if (size == 4) {      // "dense linework": two interleaved sets of nl parallel segments each; > 100000 pairs of monotone chains have overlapping
+        // envelopes although nothing intersects, so that the checkpoints which fire only every 100000th candidate pair (MCIndexNoder of the
+        // overlay, the MCIndexNoder inside the noding validation after it, EdgeSetIntersector of relate) are all reached, cheaply
+        int nl = 330 + (int) r.below(170); double dx = r.chance(50) ? 1.0 : 0.25 + r.unit(), step = r.chance(50) ? 0.001 : 0.0005 + 0.002 * r.unit();
+        auto set = [&](double off) { std::vector<GEOSGeometry*> gs; for (int i = 0; i < nl; i++) gs.push_back(g.lineOf({i * step + off, 0.0, i * step + off + dx, 1.0}));
+            return GEOSGeom_createCollection_r(H, GEOS_MULTILINESTRING, gs.data(), (unsigned) gs.size()); };
+        switch (fam) {
+        case 'O': case 'R': in.a = set(0.0); in.b = set(step / 2); in.p = 0.001; return in;
+        case 'U': case 'N': { GEOSGeometry* two[2] = { set(0.0), set(step / 2) };
+            std::vector<GEOSGeometry*> parts; for (int t = 0; t < 2; t++) { int n = GEOSGetNumGeometries_r(H, two[t]); for (int i = 0; i < n; i++) parts.push_back(GEOSGeom_clone_r(H, GEOSGetGeometryN_r(H, two[t], i))); GEOSGeom_destroy_r(H, two[t]); }
+            in.a = GEOSGeom_createCollection_r(H, GEOS_MULTILINESTRING, parts.data(), (unsigned) parts.size()); in.p = 0.001; return in; }
+        default: break;
+        }
+    }
     switch (fam) {
     case 'O': if (r.chance(15)) {        // the fallback stages of OverlayNGRobust have polls of their own: reach them
                   int k = (int) r.below((uint64_t) N_ROBUST_PAIRS); bool sw = r.chance(50);
@@ -446,7 +485,7 @@ static void armCallback(int act, long k) { g_polls = 0; g_act = act; g_k = k; g_
 // clean run: benign counting callback; returns polls
 static Res cleanRun(const std::string& op, const Input& in, long& N, bool trace) {
     GEOS_interruptCancel(); GEOS_interruptRegisterCallback(cb);
-    armCallback(0, 0); g_trace = trace; if (trace) g_siteSeq.clear();
+    armCallback(0, 0); g_trace = trace; if (trace) { g_siteSeq.clear(); g_ctxSeq.clear(); g_ctxIds.clear(); }
     Res r = runOp(op, in);
     g_trace = false; N = g_polls;
     return r;
@@ -539,6 +578,80 @@ static std::string genScript(Rng& r, Out& out) {
     return s;
 }
 
+
+// ------------------------------------------------------------------------------------------------ unwind stream
+// Exception transparency of the real noding::ValidatingNoder (the handler every floating-precision overlay runs under): which
+// exception LEAVES computeNodes for each exception raised below it — by the wrapped noder, by the validation of its output
+// (TopologyException for a missed crossing) or by a checkpoint poll inside that validation (InterruptedException).
+//   W <inner> <output> <nl> <P> <j>     inner : none | interrupted | topology | illegalarg | runtime | logic   (thrown by the wrapped noder)
+//                                       output: valid | crossing   (what the wrapped noder hands over when it does not throw)
+//                                       nl    : 2*nl parallel segments (dense linework); P : polls of an uninterrupted validation (measured)
+//                                       j     : the callback requests an interrupt at poll j of the validation (0 = never)
+//   expect:  none | <class> msg=<message unchanged 0/1>      class = dynamic class of the exception leaving computeNodes
+struct StubNoder : public geos::noding::Noder {
+    std::string inner; std::vector<geos::noding::SegmentString*>* out = nullptr;
+    void computeNodes(std::vector<geos::noding::SegmentString*>*) override {
+        if (inner == "interrupted") throw geos::util::InterruptedException();
+        if (inner == "topology") throw geos::util::TopologyException("stub noder failed");
+        if (inner == "illegalarg") throw geos::util::IllegalArgumentException("stub noder argument");
+        if (inner == "runtime") throw std::runtime_error("stub noder runtime_error");
+        if (inner == "logic") throw std::logic_error("stub noder logic_error");
+    }
+    std::vector<geos::noding::SegmentString*>* getNodedSubstrings() const override { return out; }
+};
+static const char* innerMessage(const std::string& inner) {
+    return inner == "interrupted" ? "InterruptedException: Interrupted!" : inner == "topology" ? "TopologyException: stub noder failed" :
+           inner == "illegalarg" ? "IllegalArgumentException: stub noder argument" : inner == "runtime" ? "stub noder runtime_error" : "stub noder logic_error";
+}
+static std::vector<geos::noding::SegmentString*>* denseStrings(int nl, bool crossing) {
+    auto* v = new std::vector<geos::noding::SegmentString*>();
+    auto seg = [&](double x0, double y0, double x1, double y1) { auto cs = new geos::geom::CoordinateSequence(0u, false, false);
+        cs->add(geos::geom::Coordinate(x0, y0)); cs->add(geos::geom::Coordinate(x1, y1)); v->push_back(new geos::noding::NodedSegmentString(cs, false, false, nullptr)); };
+    for (int i = 0; i < 2 * nl; i++) seg(i * 0.0005, 0.0, i * 0.0005 + 1.0, 1.0);
+    if (crossing) { seg(5.0, 0.0, 6.0, 1.0); seg(5.0, 1.0, 6.0, 0.0); }
+    return v;
+}
+// returns the observation; polls = number of polls seen
+static std::string runUnwind(const std::string& inner, const std::string& output, int nl, long j, long& polls) {
+    StubNoder stub; stub.inner = inner; if (inner == "none") stub.out = denseStrings(nl, output == "crossing");
+    geos::noding::ValidatingNoder vn(stub);
+    GEOS_interruptCancel(); GEOS_interruptRegisterCallback(cb); armCallback(j > 0 ? 1 : 0, j);
+    std::string cls = "none", msg;
+    try { vn.computeNodes(nullptr);
+          std::vector<geos::noding::SegmentString*>* res = vn.getNodedSubstrings(); if (res) { for (auto* ss : *res) delete ss; delete res; } }
+    catch (const geos::util::InterruptedException& e) { cls = "interrupted"; msg = e.what(); }
+    catch (const geos::util::TopologyException& e) { cls = "topology"; msg = e.what(); }
+    catch (const geos::util::IllegalArgumentException& e) { cls = "illegalarg"; msg = e.what(); }
+    catch (const geos::util::GEOSException& e) { cls = "geos"; msg = e.what(); }
+    catch (const std::runtime_error& e) { cls = "runtime"; msg = e.what(); }
+    catch (const std::logic_error& e) { cls = "logic"; msg = e.what(); }
+    catch (const std::exception& e) { cls = "std"; msg = e.what(); }
+    catch (...) { cls = "unknown"; }
+    polls = g_polls; GEOS_interruptCancel();
+    if (cls == "none") return cls;
+    bool same;
+    if (inner != "none") same = msg == innerMessage(inner);
+    else if (cls == "interrupted") same = msg == "InterruptedException: Interrupted!";
+    else same = msg.find("found non-noded intersection") != std::string::npos;      // the validator's own message
+    return cls + " msg=" + (same ? "1" : "0");
+}
+static void genUnwind(Rng& r, Out& out) {
+    static const char* const INNER[] = {"interrupted", "topology", "illegalarg", "runtime", "logic"};
+    int kind = (int) r.below(10);
+    if (kind < 3) { std::string in = INNER[r.below(5)]; long polls = 0; out.count("unwind_inner_throws." + in);
+        out.emit("W " + in + " valid 0 0 0", runUnwind(in, "valid", 0, 0, polls)); return; }
+    if (kind < 5) { int nl = r.range(2, 40); bool cr = r.chance(60); long polls = 0; out.count(cr ? "unwind_small_crossing" : "unwind_small_valid");
+        out.emit("W none " + std::string(cr ? "crossing" : "valid") + " " + std::to_string(nl) + " 0 0", runUnwind("none", cr ? "crossing" : "valid", nl, 0, polls)); return; }
+    // dense: measure P, then interrupt at a poll of the validation
+    int nl = r.range(230, 420); long P = 0; bool cr = kind == 5;
+    std::string clean = runUnwind("none", cr ? "crossing" : "valid", nl, 0, P);
+    out.count("unwind_dense"); out.count("unwind_validation_polls", P);
+    if (cr || P == 0) { out.emit("W none " + std::string(cr ? "crossing" : "valid") + " " + std::to_string(nl) + " " + std::to_string(P) + " 0", clean); return; }
+    long j = 1 + (long) r.below((uint64_t) P + 1);      // 1..P+1 (P+1: never reached)
+    long p2 = 0; out.count(j <= P ? "unwind_interrupt_in_validation" : "unwind_interrupt_beyond");
+    out.emit("W none valid " + std::to_string(nl) + " " + std::to_string(P) + " " + std::to_string(j), runUnwind("none", "valid", nl, j, p2));
+}
+
 // ------------------------------------------------------------------------------------------------ main
 static std::vector<long> pickK(Rng& r, long N, bool thorough) {
     std::vector<long> ks;
@@ -548,6 +661,11 @@ static std::vector<long> pickK(Rng& r, long N, bool thorough) {
     ks = {1, 2, N - 1, N, (N + 1) / 2};
     long strata = all - 5;
     for (long i = 0; i < strata; i++) { long lo = 1 + i * N / strata, hi = std::max(lo, (i + 1) * N / strata); ks.push_back(lo + (long) r.below((uint64_t) (hi - lo + 1))); }
+    // every distinct call-stack context of a poll is interrupted at its first and at its last occurrence (and once in between)
+    { std::map<int, std::vector<long>> occ; for (size_t i = 0; i < g_ctxSeq.size() && (long) i < N; i++) occ[g_ctxSeq[i]].push_back((long) i + 1);
+      long budget = thorough ? 96 : 16;
+      for (auto& kv : occ) { if (budget <= 0) break; const std::vector<long>& v = kv.second;
+          ks.push_back(v.front()); budget--; if (v.size() > 1) { ks.push_back(v.back()); budget--; } if (v.size() > 2) { ks.push_back(v[1 + r.below(v.size() - 2)]); budget--; } } }
     std::sort(ks.begin(), ks.end()); ks.erase(std::unique(ks.begin(), ks.end()), ks.end());
     return ks;
 }
@@ -579,6 +697,7 @@ int main(int argc, char** argv) {
             if (line.empty()) continue;
             auto tk = split(line);
             if (tk[0] == "S") { std::cout << runScript(tk) << "\n"; continue; }
+            if (tk[0] == "W" && tk.size() >= 6) { long polls = 0; std::cout << runUnwind(tk[1], tk[2], std::stoi(tk[3]), std::stol(tk[5]), polls) << "\n"; continue; }
             if (tk[0] != "O" || tk.size() < 7) { std::cout << "bad-line\n"; continue; }
             const OpDef* od = findOp(tk[1]); if (!od) { std::cout << "bad-op\n"; continue; }
             Input in = makeInput(od->in, std::stoull(tk[2]), std::stoi(tk[3]));
@@ -594,6 +713,10 @@ int main(int argc, char** argv) {
         if (argc < 5) return 2;
         uint64_t seed = std::stoull(argv[2]); long n = std::stol(argv[3]); Out out(argv[4]); Rng r(seed);
         for (long i = 0; i < n; i++) { std::string c = genScript(r, out); out.emit(c, runScript(split(c))); }
+    } else if (stream == "unwind") {
+        if (argc < 5) return 2;
+        uint64_t seed = std::stoull(argv[2]); long n = std::stol(argv[3]); Out out(argv[4]); Rng r(seed);
+        for (long i = 0; i < n; i++) genUnwind(r, out);
     } else if (stream == "ops") {
         if (argc < 5) return 2;
         uint64_t seed = std::stoull(argv[2]); long n = std::stol(argv[3]); Rng r(seed);
@@ -602,10 +725,16 @@ int main(int argc, char** argv) {
             Out out(argv[4]);
             for (long i = 0; i < n; i++) {
                 // operations round-robin (offset by seed) so that every op is visited by every shard set
-                const OpDef& od = OPS[(size_t) ((seed + (uint64_t) i) % (uint64_t) NOPS)];
+                // every 10th (operation, input) pair is a dense-linework input for one of the operations whose checkpoints are
+                // only reached by > 100000 candidate pairs (round-robin over DEEP_OPS): a regular share of every run, not a matter of luck
+                static const char* const DEEP_OPS[] = {"union", "intersection", "difference", "symdifference", "unaryunion", "node", "relate", "intersects", "prepintersects", "relateold"};
+                static const int NDEEP = (int) (sizeof DEEP_OPS / sizeof DEEP_OPS[0]);
+                bool deep = (i % 10) == 9;
+                const OpDef& od = deep ? *findOp(DEEP_OPS[(size_t) ((seed + (uint64_t) (i / 10)) % (uint64_t) NDEEP)]) : OPS[(size_t) ((seed + (uint64_t) i) % (uint64_t) NOPS)];
                 std::string op = od.name;
                 uint64_t iseed = r.next() % 1000000007ULL;
-                int size = thorough ? (r.chance(12) ? 3 : (int) r.below(3)) : (r.chance(15) ? 0 : r.chance(60) ? 1 : 2);
+                int size = deep ? 4 : thorough ? (r.chance(12) ? 3 : (int) r.below(3)) : (r.chance(15) ? 0 : r.chance(60) ? 1 : 2);
+                if (deep) out.count("dense_linework_inputs." + op);
                 Input in = makeInput(od.in, iseed, size);
                 if (!in.a) { out.count("skip_input_build_failed"); continue; }
                 long N = 0, N2 = 0;
@@ -614,7 +743,7 @@ int main(int argc, char** argv) {
                 if (clean.err || warm.err) { out.count("skip_clean_error." + op); freeInput(in); continue; }
                 if (warm.bytes != clean.bytes || N != N2) { out.count("skip_nondeterministic." + op); freeInput(in); continue; }
                 out.count("N." + op + "." + nBucket(N)); out.count("Nall." + nBucket(N)); out.count("inputs." + op);
-                out.count("polls_total", N);
+                out.count("polls_total", N); out.count("poll_contexts_total", (long) g_ctxIds.size());
                 std::string head = "O " + op + " " + std::to_string(iseed) + " " + std::to_string(size) + " " + std::to_string(N) + " ";
                 std::vector<const std::string*> sites = g_siteSeq;
                 auto emit = [&](const std::string& mode, long k) {
